@@ -5,6 +5,7 @@ import AdaVerif.Lemmas.UrlSetters
 import AdaVerif.Lemmas.AggSetPathname
 import AdaVerif.Lemmas.Protocol
 import AdaVerif.Lemmas.HostSetter
+import AdaVerif.Lemmas.AggHostSetter
 import AdaVerif.Props.C10
 /-
 C03 — Setters implement the Standard's API setters and fail atomically.
@@ -297,6 +298,19 @@ theorem url_set_host_end_to_end_partial (hn : Bool) (idna : Idna) (L ty : Nat) (
     (setHostR hn idna L ty ((defaultPort u.scheme).getD 0) (recOf u) v).1 =
       if getHrefSize (recOf (setHostGeneric hn idna u v)) ≤ L then recOf (setHostGeneric hn idna u v) else recOf u :=
   setHostR_eq hn idna L ty u v hty hid hclean
+
+open AdaVerif.Model.Agg AdaVerif.Lemmas.AggL in
+/-- **`url_aggregator::set_host` / `set_hostname`, end to end** (`Model/AggHostSetter.lean`, on the editor layer of C07:
+    `update_base_hostname`, the "/." guard dropped once there is a host, `update_base_port` / `clear_port`,
+    `clear_hostname` or just the "//" for an empty host, the `localhost` rule on the buffer), same side conditions -/
+theorem aggregator_set_host_end_to_end_partial (hn : Bool) (idna : Idna) (L : Nat) (u : Url) (v : Bytes) (hinv : RecInv u = true)
+    (hna : TailNoAt (ofUrl u)) (hid : ∀ d, AdaVerif.Lemmas.HP.IdnaAt idna d)
+    (hfile : u.scheme = bFile → u.host.isSome = true ∧ u.username = [] ∧ u.password = [])
+    (hclean : u.scheme ≠ bFile → AdaVerif.Lemmas.HS.bracketClean u.isSpecial false (stripTN (v.takeWhile (· != 0x23))) = true) :
+    (setHostA hn idna L u.isSpecial (u.scheme == bFile) ((defaultPort u.scheme).getD 0) (layout (ofUrl u)) v).1 =
+      if (layout (ofUrl (setHostGeneric hn idna u v))).buf.length ≤ L then layout (ofUrl (setHostGeneric hn idna u v))
+      else layout (ofUrl u) :=
+  setHostA_eq hn idna L u v (credOk_of_recInv u hinv) hna hfile hid hclean
 
 /-- the delimiter walk of `get_host_delimiter_location` is the Standard's "cut at '/', '?' ('\\'), then the first ':'
     outside brackets", whenever no hard delimiter stands inside brackets -/
